@@ -272,6 +272,9 @@ func solveAll(obls []*Obligation, dir string, timeout time.Duration, confirm boo
 	slowRetries := 0
 	for _, o := range obls {
 		again := o.Result == nil || o.Result.Status == "error" || o.Result.Status == "timeout" || (o.WantSat && o.Result.Status != "sat" && o.Result.Status != "unsat")
+		if o.Result != nil && (strings.Contains(o.Result.Raw, "unknown constant") || strings.Contains(o.Result.Raw, "Parse Error")) {
+			again = false // the script does not parse: a defect of the generator or of a contract expression, not of the load
+		}
 		if !again && !o.WantSat && o.Result.Status == "unknown" && o.Result.SomeTimedOut && slowRetries < 12 {
 			// one solver gave up at once, the others ran out of time: under load that is not a verdict
 			again = true
